@@ -21,7 +21,7 @@ pub fn meta(id: &'static str) -> Meta {
         Meta {
             id: "C04",
             level: "model_checking",
-            rule: format!("bounded exhaustive exploration of the alignment writer's operation sequences: {common} Oracle: the three-way case distinction of the statement implemented literally (matched centre -> strand-corrected middle base; within (k-1)/2 of a matched centre on the same contig -> upper-case reference base; else '-'), then the two masks. States = distinct (reference layout, matched-centre pattern) inputs driven through the writer; transitions = write_split_kmer calls implied (matched centres); every run is the real implementation, so each explored sequence is validated against it. Through the CLI additionally every flag combination at k = 9, 31, 33, 63, a reference with a 70 000-base contig (positions beyond 2^16) and one of 65 537 contigs."),
+            rule: format!("bounded exhaustive exploration of the alignment writer's operation sequences: {common} Oracle: the three-way case distinction of the statement implemented literally (matched centre -> strand-corrected middle base; within (k-1)/2 of a matched centre on the same contig -> upper-case reference base; else '-'), then the two masks. States = distinct (reference layout, matched-centre pattern) inputs driven through the writer; transitions = write_split_kmer calls implied (matched centres); every run is the real implementation, so each explored sequence is validated against it. Through the CLI additionally every flag combination at k = 9, 31, 33, 63, `ska map` straight from sequence files (k = 17 built on the fly), a reference with a 70 000-base contig (positions beyond 2^16) and one of 65 537 contigs."),
             assumptions: vec!["a map in which no k-mer matches may be refused or print all gaps; a reference without any k-mer is refused".into(), "a reference letter outside A/C/G/T/N must be shown as itself (upper-case) where the reference base is shown; how it is read inside a k-mer is not defined by the tool, so any consistent reading (A, C, G, T or not-a-base, the same for the whole run) is accepted".into()],
             exhaustive_when_uncapped: true,
         }
@@ -649,6 +649,66 @@ pub fn run(ctx: &Ctx, rep: &mut Report, id: &str) {
                     };
                     if !ok {
                         d.rep.violate(format!("cli map vcf k={k} am={am} rm={rm}"), "ska map -f vcf does not carry the information of ska map -f aln".into(), json!({"cli": true, "vcf": true, "k": k, "am": am, "rm": rm}));
+                    }
+                }
+            }
+        }
+        // one step instead of two: `ska map ref.fa a.fa b.fa` (sequence files, built on the fly with the default k = 17)
+        // must print what the model gives for k = 17, with every mask flag combination, as alignment and as VCF
+        {
+            idx += 1;
+            if ctx.mine(idx) {
+                let k = 17usize;
+                let g1 = repeat_free(4 * k + 3, k, 0, ctx.seed + 62);
+                let g2 = repeat_free(2 * k + 5, k, 0, ctx.seed + 63);
+                let c1: Vec<u8> = [&g1[..], &g1[..k + 2]].concat();
+                let reference = vec![c1.clone(), g2.to_ascii_lowercase()];
+                let dir = scratch::path("c04onestep");
+                let _ = std::fs::remove_dir_all(&dir);
+                let _ = std::fs::create_dir_all(&dir);
+                std::fs::write(format!("{dir}/ref.fa"), scratch::fasta_named(&[("chrA".into(), reference[0].clone()), ("chrB".into(), reference[1].clone())])).unwrap();
+                let mut s1 = g1.clone();
+                s1[2 * k] = comp(s1[2 * k]);
+                let mut dup = g1[k..2 * k + 1].to_vec();
+                dup[(k - 1) / 2 + 1] = comp(dup[(k - 1) / 2 + 1]);
+                let sa = vec![s1, g2.clone(), dup];
+                let sb = vec![rc_str(&g1)];
+                std::fs::write(format!("{dir}/zed.fa"), scratch::fasta(&sa)).unwrap();
+                std::fs::write(format!("{dir}/abe.fa"), scratch::fasta(&sb)).unwrap();
+                let names = vec!["zed".to_string(), "abe".to_string()];
+                let t = Table::from_samples(k, true, &names, &[sa, sb]);
+                let rf = RefSeq { path: format!("{dir}/ref.fa"), names: vec!["chrA".into(), "chrB".into()], seqs: reference.clone() };
+                for (am, rm) in [(false, false), (true, false), (false, true), (true, true)] {
+                    d.rep.evaluations += 1;
+                    d.rep.nontrivial += 1;
+                    d.rep.corner("cli_map_from_sequence_files");
+                    let mut args = vec!["map", "ref.fa", "zed.fa", "abe.fa"];
+                    if am {
+                        args.push("--ambig-mask");
+                    }
+                    if rm {
+                        args.push("--repeat-mask");
+                    }
+                    let o = cli::run(&args, &dir, None);
+                    let (want, _) = model_map(&reference, &dicts_of(&t), k, true, am, rm);
+                    let (nm, seqs) = real::parse_fasta(&o.stdout);
+                    let want_cat: Vec<Vec<u8>> = want.iter().map(|a| a.concat()).collect();
+                    if !want_vcf {
+                        if o.code != 0 || nm != names || seqs != want_cat {
+                            d.rep.violate(format!("cli map from sequence files am={am} rm={rm}"), format!("ska map ref.fa zed.fa abe.fa --ambig-mask={am} --repeat-mask={rm} (exit {}) differs from the model at k=17 (names {nm:?})", o.code), json!({"cli": true, "onestep": true, "am": am, "rm": rm}));
+                        }
+                    } else if o.code == 0 {
+                        let mut va = args.clone();
+                        va.extend(["-f", "vcf"]);
+                        let v = cli::run(&va, &dir, None);
+                        let alns: Option<Vec<Vec<Vec<u8>>>> = seqs.iter().map(|s| split_contigs(s, &reference)).collect();
+                        let ok = match (vcf_canon(&v.stdout, &rf.names), alns) {
+                            (Ok(got), Some(alns)) => v.code == 0 && got == model_vcf_canon(&rf, &nm, &alns),
+                            _ => false,
+                        };
+                        if !ok {
+                            d.rep.violate(format!("cli map vcf from sequence files am={am} rm={rm}"), "ska map -f vcf from sequence files does not carry the information of -f aln".into(), json!({"cli": true, "onestep": true, "vcf": true, "am": am, "rm": rm}));
+                        }
                     }
                 }
             }
